@@ -113,7 +113,10 @@ PROPS = {
                            'Tie: hist (cool-down focused: advances around the period, below-minimum views inside the window) compares every call and the lock state (time quantised by a hook); monitor: any call inside an observed window. '
                            'The strictness of the boundary comparison (< vs <=) at the nanosecond is not distinguishable by the harness (real clock).',
                 level_note=LEVEL_NOTE),
-    'C03': dict(level='proof', module='EscProofs.P.C03', streams=hist('C03'),
+    'C03': dict(level='proof', module='EscProofs.P.C03',
+                streams=dict(quick=[('scenario', ['-dir', '@ROOT/corpus/C03']), ('hist', ['-n', 400, '-scans', 10]), ('hist', ['-n', 200, '-scans', 10, '-focus', 'autodisc'])],
+                             thorough=[('scenario', ['-dir', '@ROOT/corpus/C03']), ('hist', ['-n', 20000, '-scans', 12]), ('hist', ['-n', 10000, '-scans', 12, '-focus', 'autodisc'])],
+                             search=[('hist', ['-n', 1500, '-scans', 12]), ('hist', ['-n', 1500, '-scans', 12, '-focus', 'autodisc'])]),
                 aspects=['hist:taintadds', 'hist:untaints'], monitors=['C03'],
                 theorems=['Esc.P.C03_floor', 'Esc.P.C03_below_min', 'Esc.P.C03_history'],
                 technique='Lean 4 theorem (journal shape + counting lemma for the taint loop) + differential correspondence and runtime monitor',
